@@ -128,10 +128,24 @@ func (sess *hopSession) start() {
 					go sess.startCodex(r, r2)
 				}
 			case common.AuthGrantTube:
+				if sess.usingAuthGrant {
+					// No grant type authorizes issuing further grants.
+					tube.Close()
+					continue
+				}
 				go sess.handleAgc(r)
 			case common.PFControlTube:
+				if sess.usingAuthGrant {
+					// Port-forwarding grants are not implemented; fail closed.
+					tube.Close()
+					continue
+				}
 				go sess.startPF(r)
 			case common.PFTube:
+				if sess.usingAuthGrant {
+					tube.Close()
+					continue
+				}
 				go sess.handlePF(r)
 			case common.WinSizeTube:
 				go sess.startSizeTube(r)
@@ -142,6 +156,10 @@ func (sess *hopSession) start() {
 		} else if u, ok := tube.(*tubes.Unreliable); ok {
 			switch tube.Type() {
 			case common.PFTube:
+				if sess.usingAuthGrant {
+					tube.Close()
+					continue
+				}
 				go sess.handlePF(u)
 			default:
 				tube.Close() // Close unrecognized tube types
